@@ -25,7 +25,7 @@ RULE = (
     "each holding its detection. Non-trivial = >= 2 separate writeframes calls, or a cache flush before the stream "
     "ended, or >= 2 joined events."
 )
-MUST_HIT = ["writer_lagging_3_blocks_at_stop_marker", "cache_flush_mid_stream", "zero_events_with_joiner",
+MUST_HIT = ["joiner_half_sample_silence", "writer_lagging_3_blocks_at_stop_marker", "cache_flush_mid_stream", "zero_events_with_joiner",
             "region_files", "raw_region_files"]
 ASSUMPTIONS = c12.ASSUMPTIONS
 BOUNDS = {"quick": dict(n=300, maxwin=24), "thorough": dict(n=1500, maxwin=40)}
@@ -59,6 +59,8 @@ def check_case(case, rec):
                 classes.add("zero_events_with_joiner")
             if len(exp) >= 2:
                 nt = True
+                if case.get("join_sil", [0, 0])[1] == 0.5:
+                    classes.add("joiner_half_sample_silence")
         if case.get("saver"):
             total = len(run.src.handed)
             if len(run.wf_calls) >= 2:
@@ -84,6 +86,8 @@ def explicit_cases():
     return [
         {"audio": a, "win": [2, 4, 1, False, False], "saver": {"cache": 0.04}, "observers": ["joiner", "regsave"],
          "join_sil": [3, 0.25], "tmpl": "r{id}_{start:.3f}", "ext": "raw", "choices": [0, 0, 2, 2, 2, 2, 2, 2, 2, 2] * 12},
+        {"audio": a, "win": [2, 4, 1, False, False], "saver": None, "observers": ["joiner"], "join_sil": [2, 0.5], "choices": []},
+        {"audio": a, "win": [2, 4, 1, False, False], "saver": None, "observers": ["joiner"], "join_sil": [3, 0.5], "choices": []},
         {"audio": a, "win": [2, 4, 1, False, False], "saver": {"cache": 0}, "observers": ["rec"],
          "choices": [3, 3, 3, 3, 3, 3, 1, 1] * 20},
         {"audio": dict(a, pat="000000"), "win": [1, 2, 0, False, False], "saver": {"cache": 100.0},
@@ -106,8 +110,7 @@ def strategy(draw, maxwin):
         c["observers"].append("regsave")
     if c["saver"] and draw(st.booleans()):
         # writer starved: the tokenizer (last registered thread) runs in long bursts
-        nt = 3 + len(c["observers"])
-        c["choices"] = [nt - 1] * draw(st.integers(20, 200)) + c["choices"]
+        c["choices"] = [-1] * draw(st.integers(20, 200)) + c["choices"]
     return c
 
 
